@@ -55,6 +55,17 @@ def run(ctx):
             if sorted(mp.values()) != [mp[k] for k in sorted(mp)]:
                 ctx.probe("non_monotone_mapping")
             ctx.states.append(digest(tgt.m.state_digest_obj()))
+        if inserts and r[0] == "edit_meta":
+            # after an insertion the two HUGRs share nothing: an in-place metadata edit (also deep inside a nested value)
+            # on either side shows on that side only
+            ctx.checked("independent-after-insert")
+            for gx in sim.graphs:
+                for i, rn in gx.m.nodes.items():
+                    got = gx.h[gx.handles[i]].metadata
+                    if got != rn.metadata:
+                        ctx.violate("frame" if gx is sim.graphs[0] else "source-unmodified", "metadata-changed-by-an-edit-in-the-other-hugr",
+                                    {"graph": gx.name, "node": i, "got": repr(got)[:200], "expected": repr(rn.metadata)[:200]})
+                        break
         if ctx.violations:
             return
     if inserts == 0 and not ctx.violations:
